@@ -630,6 +630,12 @@ class Rewriter:
                 k = b.index('{')
                 b = b[:k + 1] + '\n        self_dropped_at_scope_end(); /* R37: implicit Drop of the by-value `self` */' + b[k + 1:]
                 self.fired('R37:implicit-drop-of-self')
+        if c.get('self_is_deref'):
+            # the body is the receiver itself, coerced through Deref / DerefMut: the call of `deref` made explicit
+            if re.sub(r'\s+', '', b) not in ('{self}',):
+                raise ExtractError('self_is_deref: the body is not just `self`')
+            b = '{\n        self.deref(hs)\n    }'
+            self.fired('R39:deref-coercion')
         if c.get('slice_folds'):
             b = self.slice_iter_folds(b)
         if c.get('addr_arith'):
@@ -867,6 +873,8 @@ class Rewriter:
         b = self.sub('R25:str-forward', r'\(\*\*self\)\.hash\((\w+)\)', r'str_hash(hs, self.deref(hs), \1, cl)', b)
         b = self.sub('R25:str-forward', r'\b(\w+)\.write_str\(self\)', r'formatter_write_str(hs, self.deref(hs), \1, cl)', b)
         b = self.sub('R25:str-forward', r'\bself\.vec\.hash\((\w+)\)', r'bytes_hash(hs, self.vec.as_slice(), \1, cl)', b)
+        b = self.sub('R25:bytes-of-vec', r'(?m)^(\s*)&self\.vec\s*$', r'\1self.vec.deref(hs)', b)
+        b = self.sub('R25:err-bytes', r'(?m)^(\s*)self\.bytes\s*$', r'\1e.bytes', b)
         b = self.sub('R25:owned-item', r'\bself\.push_str\(&s\)', 'self.push_str(s)', b)
         b = self.sub('R25:cloned-chars', r'\bself\.extend\(iter\.into_iter\(\)\.cloned\(\)\)', 'self.extend_chars(hs, iter.into_iter())', b)
         for name in ['push_str', 'push', 'reserve']:
